@@ -15,6 +15,10 @@ pub mod c11;
 pub mod event;
 pub mod c12;
 pub mod c13;
+pub mod c14;
+pub mod c15;
+pub mod c16;
+pub mod recon;
 pub mod c17;
 pub mod c18;
 
@@ -33,6 +37,9 @@ pub fn dispatch(args: &Args) -> i32 {
         "C11" => c11::run(args),
         "C12" => c12::run(args),
         "C13" => c13::run(args),
+        "C14" => c14::run(args),
+        "C15" => c15::run(args),
+        "C16" => c16::run(args),
         "C17" => c17::run(args),
         "C18" => c18::run(args),
         p => {
